@@ -2086,6 +2086,11 @@ void XMLReader::handleEOL(XMLCh& curCh, bool inDecl)
             fCurLine++;
             curCh = chLF;
         }
+        else
+        {
+            // Not a line end here, so it is an ordinary character
+            fCurCol++;
+        }
         break;
     default:
         fCurCol++;
